@@ -173,16 +173,54 @@ func checkC01(P *Prog, r *Result) {
 		"It does not decide that each predicate is the right predicate (C20) nor that the stored value is the documented coercion (C03)."
 	r.Assumptions = []string{"user-written custom tests report failure through ctx.AddIssue", "interface dispatch on ZogSchema is closed over the module's schema kinds"}
 
-	// (a) no-silent-exit
+	// (a) no-silent-exit: on the decision paths of the node function (helpers inlined)
 	for _, fn := range P.nodeFuncs() {
 		r.sawFunc(fname(fn))
-		ev := P.eventsOf(fn)
-		if bad := silentExit(fn, ev); bad != nil {
-			r.bad("C01/no-silent-exit", fname(fn), P.ipos(bad.Instrs[len(bad.Instrs)-1]),
-				"a path from entry to this return emits no issue, takes no optional-skip or catch path, runs no test loop and visits no child: the node silently passes",
-				eventSummary(ev)...)
+		paths, capHit := P.nodePaths(fn)
+		if capHit {
+			// too many paths: the block-level form (no helper inlining)
+			ev := P.eventsOf(fn)
+			if bad := silentExit(fn, ev); bad != nil {
+				r.bad("C01/no-silent-exit", fname(fn), P.ipos(bad.Instrs[len(bad.Instrs)-1]),
+					"a path from entry to this return emits no issue, takes no optional-skip or catch path, runs no test loop and visits no child: the node silently passes",
+					eventSummary(ev)...)
+			} else {
+				r.ok("C01/no-silent-exit", fname(fn), P.pos(fn.Pos()), "every entry→return path passes an event", eventSummary(ev)...)
+			}
+			continue
+		}
+		var silent *nodePath
+		counts := map[string]int{}
+		for i := range paths {
+			p := paths[i]
+			if p.end != "RETURN" {
+				continue
+			}
+			loud := p.has("ISSUE", "") || p.has("TESTS", "") || p.has("CALL-TEST", "") || p.has("CHILD", "") || p.has("DELEGATE", "") || p.has("DEST", "catch") || p.has("REQUIRED", "F")
+			for _, it := range p.items {
+				switch it.kind {
+				case "ISSUE", "TESTS", "CALL-TEST", "CHILD", "DELEGATE":
+					counts[it.kind]++
+				}
+			}
+			if !loud && silent == nil {
+				silent = &paths[i]
+			}
+		}
+		var summary []string
+		for _, k := range sortedKeys(counts) {
+			summary = append(summary, fmt.Sprintf("%s on %d path item(s)", k, counts[k]))
+		}
+		if silent != nil {
+			pos := P.pos(fn.Pos())
+			if n := len(silent.items); n > 0 {
+				pos = P.ipos(silent.items[n-1].in)
+			}
+			r.bad("C01/no-silent-exit", fname(fn), pos,
+				"a path from entry to a return emits no issue, takes no optional-skip or catch path, runs no test loop and visits no child: the node silently passes  [path: "+silent.String()+"]",
+				summary...)
 		} else {
-			r.ok("C01/no-silent-exit", fname(fn), P.pos(fn.Pos()), "every entry→return path passes an event", eventSummary(ev)...)
+			r.ok("C01/no-silent-exit", fname(fn), P.pos(fn.Pos()), fmt.Sprintf("each of the %d entry→return paths passes an event", len(paths)), summary...)
 		}
 	}
 	r.floor("C01/no-silent-exit", 20)
@@ -407,11 +445,18 @@ type wrapperInfo struct {
 	issueWhen string // "false": issue iff predicate false; "true": issue iff predicate true; "?": undecided
 	addIssues int
 	detail    string
+	// every issue the closure emits is IssueFromTest(ctx.Test, val) on its own context
+	issueArgsOK bool
 }
 
 // predicateWrappers finds functions with a (BoolTFunc, *Test) shape that store
-// a closure into test.Func which calls the captured predicate.
+// a closure into test.Func which calls the captured predicate. The closure is
+// decided on its decision paths (helpers entered): the atom is the predicate's
+// result, the event an AddIssue call.
 func (P *Prog) predicateWrappers() []wrapperInfo {
+	if P.wrappersMemo != nil {
+		return P.wrappersMemo
+	}
 	R := P.roles
 	funcField := structField(R.Test, "Func")
 	var out []wrapperInfo
@@ -433,68 +478,103 @@ func (P *Prog) predicateWrappers() []wrapperInfo {
 				return
 			}
 			cl := mc.Fn.(*ssa.Function)
-			// the closure must call a captured func value of bool result and call AddIssue
-			var predCall *ssa.Call
-			nAdd := 0
-			eachInstr(cl, func(_ *ssa.BasicBlock, _ int, in2 ssa.Instruction) {
+			// the predicate: a captured func value of bool result called by the closure (or a helper it calls)
+			isPredCall := func(v ssa.Value) bool {
+				c, ok := v.(*ssa.Call)
+				if !ok || !callOf(c).dynamic {
+					return false
+				}
+				if b, ok := c.Type().Underlying().(*types.Basic); !ok || b.Kind() != types.Bool {
+					return false
+				}
+				switch x := cv(c.Call.Value).(type) {
+				case *ssa.FreeVar:
+					return x.Parent() == cl
+				case *ssa.UnOp:
+					fv, isFV := x.X.(*ssa.FreeVar)
+					return x.Op == token.MUL && isFV && fv.Parent() == cl
+				}
+				return isLoadOfFreeVar(c.Call.Value)
+			}
+			spec := &pathSpec{name: "predicate-wrapper"}
+			spec.cond = func(iff *ssa.If) (string, string, string) {
+				c, neg := condKey(iff.Cond)
+				if !isPredCall(c) {
+					return "", "", ""
+				}
+				if neg {
+					return "PRED", "F", "T"
+				}
+				return "PRED", "T", "F"
+			}
+			spec.events = func(in2 ssa.Instruction) []pathItem {
 				ci := callOf(in2)
 				if ci == nil {
-					return
+					return nil
 				}
-				if P.isAddIssue(ci) {
-					nAdd++
+				if c, isCall := in2.(*ssa.Call); isCall && isPredCall(c) {
+					return []pathItem{{kind: "CALL-PRED", in: in2}}
 				}
-				if c, isCall := in2.(*ssa.Call); isCall && ci.dynamic {
-					if _, isFV := cv(c.Call.Value).(*ssa.FreeVar); isFV || isLoadOfFreeVar(c.Call.Value) {
-						if b, ok := c.Type().Underlying().(*types.Basic); ok && b.Kind() == types.Bool {
-							predCall = c
+				if !P.isAddIssue(ci) {
+					return nil
+				}
+				// the issue: IssueFromTest(<this ctx>, <this ctx>.Test, <the value>)
+				v := "args-other"
+				if ic, ok := cv(ci.args()[1]).(*ssa.Call); ok {
+					if icc := callOf(ic); icc.static != nil && icc.static.Name() == "IssueFromTest" && len(icc.args()) == 3 {
+						args := icc.args()
+						tb, tf := loadOfField(cv(args[1]))
+						if tf != nil && sameField(tf, R.FTest) && cvi(tb) == ssa.Value(cl.Params[1]) && cv(args[2]) == ssa.Value(cl.Params[0]) && cvi(args[0]) == ssa.Value(cl.Params[1]) {
+							v = "args-ok"
 						}
 					}
 				}
-			})
-			if predCall == nil || nAdd == 0 {
+				return []pathItem{{kind: "ISSUE", val: v, in: in2}}
+			}
+			res := P.enumPathsSpec(cl, nil, spec)
+			hasPred, nAddMax := false, 0
+			issueOn := map[string]map[int]bool{"T": {}, "F": {}, "": {}}
+			argsOK := true
+			for _, p := range res.paths {
+				if p.has("CALL-PRED", "") {
+					hasPred = true
+				}
+				pv := ""
+				for _, it := range p.items {
+					if it.kind == "PRED" {
+						pv = it.val
+					}
+					if it.kind == "ISSUE" && it.val != "args-ok" {
+						argsOK = false
+					}
+				}
+				n := p.count("ISSUE")
+				if n > nAddMax {
+					nAddMax = n
+				}
+				issueOn[pv][n] = true
+			}
+			if !hasPred || nAddMax == 0 {
 				return
 			}
-			wi := wrapperInfo{fn: fn, closure: cl, addIssues: nAdd, issueWhen: "?"}
-			// polarity: under which value of the predicate result is AddIssue executed?
-			eachInstr(cl, func(b *ssa.BasicBlock, _ int, in2 ssa.Instruction) {
-				if !P.isAddIssue(callOf(in2)) {
-					return
-				}
-				pol := ""
-				for _, gd := range guardsOf(b) {
-					c := gd.If.Cond
-					neg := false
-					for {
-						if u, ok := c.(*ssa.UnOp); ok && u.Op == token.NOT {
-							neg = !neg
-							c = u.X
-							continue
-						}
-						break
-					}
-					if c == ssa.Value(predCall) {
-						val := gd.True
-						if neg {
-							val = !val
-						}
-						if val {
-							pol = "true"
-						} else {
-							pol = "false"
-						}
-					}
-				}
-				if pol == "" {
-					wi.detail = "AddIssue is not control-dependent on the predicate's result"
-					wi.issueWhen = "?"
-				} else {
-					wi.issueWhen = pol
-				}
-			})
+			wi := wrapperInfo{fn: fn, closure: cl, addIssues: nAddMax, issueWhen: "?", issueArgsOK: argsOK}
+			only := func(m map[int]bool, n int) bool { return len(m) == 1 && m[n] }
+			switch {
+			case res.capHit:
+				wi.detail = "too many paths to enumerate"
+			case len(issueOn[""]) > 0 && !only(issueOn[""], 0):
+				wi.detail = "AddIssue is not control-dependent on the predicate's result"
+			case only(issueOn["F"], nAddMax) && only(issueOn["T"], 0):
+				wi.issueWhen = "false"
+			case only(issueOn["T"], nAddMax) && only(issueOn["F"], 0):
+				wi.issueWhen = "true"
+			default:
+				wi.detail = "AddIssue is not control-dependent on the predicate's result"
+			}
 			out = append(out, wi)
 		})
 	}
+	P.wrappersMemo = out
 	return out
 }
 
